@@ -1,5 +1,6 @@
 """C11 — attribute value normalisation and defaults (narrow)."""
 import e6
+import guards
 from common import Finding, Result
 from facts import BrokenCheck, walk
 from props.c08 import arm_callees, match_arms_on, variants_of_pat, ws
@@ -21,6 +22,95 @@ def arms_by_variant(f, enum_suffix):
 
 def names(facts, arm):
     return {c.split("::")[-1] for c in arm_callees(facts, arm["body"])}
+
+
+def _neg_depth(root, target):
+    """Number of `!` between root and target (None when target is not below root)."""
+    def go(n, d):
+        if n is target:
+            return d
+        if isinstance(n, dict):
+            dd = d + 1 if (n.get("k") == "Unary" and n.get("op") == "!") else d
+            for k, v in n.items():
+                if isinstance(v, (dict, list)):
+                    r = go(v, dd)
+                    if r is not None:
+                        return r
+        elif isinstance(n, list):
+            for x in n:
+                r = go(x, d)
+                if r is not None:
+                    return r
+        return None
+    return go(root, 0)
+
+
+def _name_equality(body, param_lid):
+    """Classify a closure body: ('qname', negated) when it compares the qualified name of the closure parameter with the
+    qualified name of something else; ('other', what) when it compares something narrower."""
+    neg = 0
+    n = body
+    while isinstance(n, dict) and n.get("k") in ("Unary", "Block") and (n.get("k") == "Block" or n.get("op") == "!"):
+        if n.get("k") == "Unary":
+            neg += 1
+            n = n["a"]
+        else:
+            if n.get("stmts"):
+                break
+            n = n.get("expr")
+    if not isinstance(n, dict):
+        return ("other", "?")
+    operands = None
+    if n.get("k") == "Call" and str(n["f"].get("path", "")).endswith("equal_qname"):
+        operands = n["args"]
+    elif n.get("k") == "Binary" and n.get("op") in ("==", "!="):
+        operands = [n["a"], n["b"]]
+        if n["op"] == "!=":
+            neg += 1
+    if not operands or len(operands) != 2:
+        return ("other", n.get("k"))
+    outer = [o.get("m") if o.get("k") == "MethodCall" else o.get("k") for o in operands]
+    if all(o.get("k") == "MethodCall" and o["m"] == "qname" for o in operands):
+        roots = [guards._root_local(o)[1] for o in operands]
+        if (roots[0] == param_lid) != (roots[1] == param_lid):
+            return ("qname", neg % 2 == 1)
+    return ("other", "/".join(str(x) for x in outer))
+
+
+def c11_7(facts, res, e, rule="C11-7"):
+    st = res.rule(rule, instances=0)
+    target = None
+    for n in walk(e["body"]):
+        if n.get("k") == "If" and any(m.get("k") == "Call" and str(m["f"].get("path", "")).endswith("new_from_declaration") for m in walk(n["then"])):
+            if target is None or len(list(walk(n))) < len(list(walk(target))):
+                target = n
+    if target is None:
+        raise BrokenCheck("C11-7: no conditional guards XmlAttribute::new_from_declaration in XmlElement::attributes")
+    quant = None
+    for m in walk(target["cond"]):
+        if m.get("k") == "MethodCall" and m["m"] in ("any", "all") and m.get("args") and m["args"][0].get("k") == "Closure":
+            quant = m
+    if quant is None:
+        raise BrokenCheck("C11-7: the written-attribute test is not an any()/all() over the written attributes; shape not recognised")
+    st["instances"] += 1
+    negs = _neg_depth(target["cond"], quant)
+    clo = quant["args"][0]
+    plid = clo["params"][0].get("lid") if clo.get("params") else None
+    kind, x = _name_equality(clo["body"], plid)
+    res.sample({"rule": rule, "quantifier": quant["m"], "negations_outside": negs, "closure": [kind, x]}, limit=40)
+    if kind != "qname":
+        res.oblige(1, False)
+        res.add(Finding(rule, "attributes|compare", "the test whether a declared attribute is written compares %s, not the qualified "
+                        "names of the written attribute and of the declaration: a written attribute with another prefix hides the default" % x,
+                        e["file"], quant.get("ln"), {}))
+        return
+    # no written attribute equals the declaration:  !any(eq)  or  all(!eq)
+    ok = (quant["m"] == "any" and negs % 2 == 1 and not x) or (quant["m"] == "all" and negs % 2 == 0 and x)
+    res.oblige(1, ok)
+    if not ok:
+        res.add(Finding(rule, "attributes|quantifier", "a default is added when `%s%s(|v| %sequal)` holds; it must be added exactly when NO written "
+                        "attribute has the declared name (!any(eq) / all(!eq)): with the present test an element without written attributes "
+                        "loses its defaults or gets a duplicate" % ("!" * (negs % 2), quant["m"], "!" if x else ""), e["file"], quant.get("ln"), {}))
 
 
 def run(facts, tier):
@@ -124,5 +214,8 @@ def run(facts, tier):
     # ---- C11-6
     reach, _ = facts.reachable([facts.fn("xml_info::attr_value_from_name")["id"]])
     c03.r03_3(facts, res, "C11-6", reach, {})
+    guards.rule(facts, res, "C11-6g", [facts.fns[x] for x in reach if x in facts.fns], want=("G1", "G2", "G3"), floor=1)
+    # ---- C11-7: "is the attribute written?" = no written attribute has the declaration's qualified name
+    c11_7(facts, res, e)
     res.functions_analysed = 6
     return res
